@@ -288,16 +288,83 @@ def check(model, rep):
                 for a_ in c.args if isinstance(a_, ast.Name)}
         xyz = None
         if triples:
-            itp = PolyInterp()
+            def clamp_hook(itp_, call, name):
+                # clamps act as the identity on the mathematical domain (they only matter for rounding overshoot, R18.8)
+                if name == 'np.clip' and len(call.args) == 3:
+                    return itp_.ev(call.args[0])
+                if name in ('max', 'min', 'np.maximum', 'np.minimum') and len(call.args) == 2:
+                    nonconst = [a_ for a_ in call.args if not isinstance(a_, ast.Constant)]
+                    if len(nonconst) == 1:
+                        return itp_.ev(nonconst[0])
+                return None
+            itp = PolyInterp(call_hook=clamp_hook)
             for t_ in trig:
                 itp.env[t_] = Poly.sym(t_)
             try:
-                comps = [itp.ev(il.expand(e, _stack=tuple(trig))) for e in triples[0].elts]
+                exps = [il.expand(e, _stack=tuple(trig)) for e in triples[0].elts]
+                for ex_ in exps:
+                    for nn in ast.walk(ex_):
+                        # loop counters / accumulators that survive inlining are free scalars
+                        if isinstance(nn, ast.Name) and nn.id not in itp.env and nn.id not in ('np', 'math') and il.bind.get(nn.id):
+                            itp.env[nn.id] = Poly.sym(nn.id)
+                comps = [itp.ev(ex_) for ex_ in exps]
                 xyz = comps[0] * comps[0] + comps[1] * comps[1] + comps[2] * comps[2]
             except Uninterp:
                 xyz = None
         rep.ob('R18.5', fi, 'x^2 + y^2 + z^2 == 1', xyz is not None and xyz == Poly.const(1),
                'sample norm squared is %s' % (xyz if xyz is not None else 'not recognised'))
+
+    # ---------------------------------------------------------------- R18.8
+    rep.rule('R18.8', 'a value accumulated in floating point inside a loop reaches sqrt / arccos / arcsin / log only through a clamp '
+                      '(np.clip, min/max, abs): the accumulated sum may overshoot the mathematical end value by an ulp')
+    DOM = {'np.sqrt', 'math.sqrt', 'np.arccos', 'np.arcsin', 'math.acos', 'math.asin', 'np.log', 'math.log'}
+    CLAMPS = {'np.clip', 'min', 'max', 'np.minimum', 'np.maximum', 'abs', 'np.abs'}
+    n_dom = 0
+    for fi in [f for f in model.funcs_in(FSR) + model.funcs_in(HELP) if f.outer is None]:
+        il = Inliner(fi)
+        acc = set()
+        for lp in [n_ for n_ in walk_own(fi.node) if isinstance(n_, (ast.For, ast.While))]:
+            for n_ in ast.walk(lp):
+                if isinstance(n_, ast.AugAssign) and isinstance(n_.target, ast.Name) and isinstance(n_.op, (ast.Add, ast.Sub, ast.Mult)):
+                    acc.add(n_.target.id)
+                if isinstance(n_, ast.Assign) and isinstance(n_.targets[0], ast.Name) and isinstance(n_.value, ast.BinOp) \
+                        and any(isinstance(x, ast.Name) and x.id == n_.targets[0].id for x in ast.walk(n_.value)):
+                    acc.add(n_.targets[0].id)
+        # integer counters are exact: drop accumulators that are only ever stepped by integer constants from an integer start
+        def integral(name):
+            for v in il.defs(name):
+                if not (isinstance(v, ast.Constant) and isinstance(v.value, int) or (isinstance(v, ast.BinOp) and all(
+                        (isinstance(x, ast.Constant) and isinstance(x.value, int)) or (isinstance(x, ast.Name) and x.id == name) or isinstance(x, (ast.BinOp, ast.operator, ast.expr_context))
+                        for x in ast.walk(v)))):
+                    return False
+            for n_ in walk_own(fi.node):
+                if isinstance(n_, ast.AugAssign) and isinstance(n_.target, ast.Name) and n_.target.id == name \
+                        and not (isinstance(n_.value, ast.Constant) and isinstance(n_.value.value, int)):
+                    return False
+            return True
+        acc = {a_ for a_ in acc if not integral(a_)}
+        if not acc:
+            continue
+        for c in [n_ for n_ in walk_own(fi.node) if isinstance(n_, ast.Call) and norm_text(n_.func) in DOM and n_.args]:
+            arg = il.expand(c.args[0])
+
+            def unclamped(e_):
+                if isinstance(e_, ast.Call) and norm_text(e_.func) in CLAMPS:
+                    return []
+                out = [e_.id] if isinstance(e_, ast.Name) and e_.id in acc else []
+                for ch in ast.iter_child_nodes(e_):
+                    out.extend(unclamped(ch))
+                return out
+            bad = unclamped(arg)
+            if not ({x.id for x in ast.walk(arg) if isinstance(x, ast.Name)} & acc):
+                continue
+            n_dom += 1
+            rep.ob('R18.8', fi, norm_text(c)[:70], not bad,
+                   '`%s` is accumulated by repeated floating-point addition and reaches %s without a clamp: when the sum overshoots the end of '
+                   'the domain by rounding (for some step counts it does) the result is NaN instead of the boundary value'
+                   % (bad[0] if bad else '?', norm_text(c.func)), line=c.lineno)
+    rep.count('R18.8 domain-restricted calls fed by an accumulator', n_dom)
+    rep.floor('R18.8', 'domain-restricted calls fed by an accumulator', n_dom, 1)
 
     from .c02 import closure_obligations
     n = closure_obligations(model, rep, 'R18.7', [f for f in model.funcs_in(FSR) + model.funcs_in(HELP) if f.outer is None],
